@@ -3,7 +3,7 @@ use std::sync::atomic::{AtomicBool, AtomicUsize, Ordering};
 use std::sync::Arc;
 use std::time::{Duration, Instant};
 
-use crate::cancel::Cancel;
+use crate::cancel::{Cancel, CancelDisableGuard};
 use crate::coroutine_impl::{
     current_cancel_data, run_coroutine, Coroutine, CoroutineImpl, EventSource,
 };
@@ -296,6 +296,15 @@ impl Drop for Cqueue {
         // if self.is_panicking {
         //     return;
         // }
+
+        // the wait below must not be a cancellation point: if the owner of the cqueue
+        // has a pending cancel, a Cancel panic out of `poll` would leave this drop while
+        // the select coroutines are still running with a ref to this cqueue (and while
+        // unwinding the park in `poll` would return at once, so we would spin here).
+        // with the cancel disabled we really block until all of them are finished,
+        // the pending cancel is delivered at the next cancellation point of the owner.
+        // the guard also re-enables the cancel if `poll` re-throws a selector panic
+        let _g = CancelDisableGuard::new();
 
         // run the rest event
         loop {
